@@ -11,5 +11,5 @@ for tgt, c in C.REGISTRY.items():
   res = backend.solve_all(eng.obligations, timeout_ms=30000)
   for ob, rr in zip(eng.obligations, res):
     if rr["status"] != "unsat" or rr["time"] > 2:
-      print(f"  {rr['status']:7s} {rr['backend']:4s} {rr['time']:.1f}s {ob.label[:120]} path={''.join('T' if b else 'F' for b in ob.path)}")
+      print(f"  {rr['status']:7s} {rr['backend']:4s} {rr['time']:.1f}s {ob.label[:60]+" ... "+ob.label[-50:]} path={''.join('T' if b else 'F' for b in ob.path)}")
       if rr["status"] == "sat": print("       model:", {k: rr["model"].get(str(v)) for k, v in ob.inputs.items()})
